@@ -804,7 +804,8 @@ def m_vec_into_iter(I, st, inst, args):
     return Opaque("VecIntoIter", (v.elems, 0))
 
 
-@model("<std::vec::IntoIter<*> as std::iter::Iterator>::next")
+@model("<std::vec::IntoIter<*> as std::iter::Iterator>::next", "<std::collections::hash_set::Iter<*> as std::iter::Iterator>::next",
+       "<std::collections::hash_set::IntoIter<*> as std::iter::Iterator>::next", "<std::collections::btree_set::Iter<*> as std::iter::Iterator>::next")
 def m_vec_into_iter_next(I, st, inst, args):
     it = I.read(st, args[0])
     elems, i = it.data
@@ -824,7 +825,8 @@ def m_vec_into_iter_next_back(I, st, inst, args):
     return mk_option(elems[-1])
 
 
-@model("<std::vec::IntoIter<*> as std::iter::Iterator>::size_hint")
+@model("<std::vec::IntoIter<*> as std::iter::Iterator>::size_hint", "<std::collections::hash_set::Iter<*> as std::iter::Iterator>::size_hint",
+       "<std::collections::hash_set::IntoIter<*> as std::iter::Iterator>::size_hint")
 def m_vec_into_iter_size_hint(I, st, inst, args):
     it = I.read(st, args[0])
     n = len(it.data[0]) - it.data[1]
@@ -1243,6 +1245,25 @@ def _bool_alts(I, st, cond):
 
 def _key_eq(I, st, inst, a, b):
     """equality of two keys (values) -> list of (state, bool | z3 Bool)"""
+    # keys that are thin references (`HashSet<&Ident>`, looked up through `Borrow<Q>`): simple referents compare directly,
+    # otherwise the bare value is lifted to a reference so that both sides have the key type the equality instance expects
+    def peek(p):
+        v = I.read(st, p, expand_scalar=False)
+        if isinstance(v, Lazy):
+            v = I.lazy.expand(I, st, v, None)
+        return v
+    if isinstance(a, Ptr) and a.meta is None:
+        va = peek(a)
+        if isinstance(va, (Opaque, StringVal)):
+            a = va
+    if isinstance(b, Ptr) and b.meta is None:
+        vb = peek(b)
+        if isinstance(vb, (Opaque, StringVal)):
+            b = vb
+    if isinstance(a, Ptr) and a.meta is None and not isinstance(b, Ptr):
+        b = Ptr(st.alloc(b))
+    elif isinstance(b, Ptr) and b.meta is None and not isinstance(a, Ptr):
+        a = Ptr(st.alloc(a))
     if isinstance(a, StringVal) and isinstance(b, StringVal):
         return [(st, seq_eq(I, st, a.s, b.s))]
     if isinstance(a, Opaque) and isinstance(b, Opaque) and a.kind == "Ident":
@@ -1325,6 +1346,79 @@ def m_set_insert(I, st, inst, args):
             alts.append((s2, True))
         else:
             alts.append((s2, False))
+    return Forks(alts)
+
+
+@model("std::collections::HashSet::<*>::iter", "<&std::collections::HashSet<*> as std::iter::IntoIterator>::into_iter", "std::collections::BTreeSet::<*>::iter")
+def m_set_iter(I, st, inst, args):
+    """borrowing iteration: a cursor over references to the elements, in insertion order (the order is not observable through
+    the set operations modelled here; code that depends on hash order is outside the model)"""
+    s = I.read(st, args[0])
+    if isinstance(s, Ptr):
+        s = I.read(st, s)
+    cells = st.extra.get("set_cells") or {}
+    refs = []
+    for i, el in enumerate(s.data):
+        refs.append(Ptr(st.alloc(el)))
+    return Opaque("VecIntoIter", (tuple(refs), 0))
+
+
+@model("<std::collections::HashSet<*> as std::iter::IntoIterator>::into_iter", "<std::collections::BTreeSet<*> as std::iter::IntoIterator>::into_iter")
+def m_set_into_iter(I, st, inst, args):
+    s = args[0]
+    return Opaque("VecIntoIter", (tuple(s.data), 0))
+
+
+def _set_add_all(I, st, inst, setptr, items):
+    """insert items one by one (deduplicating with the element equality) -> list of states"""
+    states = [st]
+    for it in items:
+        nxt = []
+        for s in states:
+            cur = I.read(s, setptr)
+            for s2, idx in _find_key(I, s, inst, list(cur.data), it):
+                if idx is None:
+                    c2 = I.read(s2, setptr)
+                    I.write(s2, setptr, Opaque("Set", c2.data + (it,)))
+                nxt.append(s2)
+        states = nxt
+    return states
+
+
+@model("<std::collections::HashSet<*> as std::iter::Extend<*>>::extend::<*>", aux="eq:0,into_iter:2,next:2")
+def m_set_extend(I, st, inst, args):
+    alts = []
+    for s1, itv in _into_iter_value(I, st, inst, args[1], 2):
+        if isinstance(itv, PanicExc):
+            alts.append((s1, itv))
+            continue
+        if isinstance(itv, Opaque) and itv.kind == "Set":
+            itv = Opaque("VecIntoIter", (tuple(itv.data), 0))
+        for s2, items in drive_iter(I, s1, inst.aux.get("next2"), itv):
+            if isinstance(items, PanicExc):
+                alts.append((s2, items))
+                continue
+            for s3 in _set_add_all(I, s2, inst, args[0], items):
+                alts.append((s3, UNIT))
+    return Forks(alts)
+
+
+@model("<std::collections::HashSet<*> as std::iter::FromIterator<*>>::from_iter::<*>", aux="eq:0,into_iter:2,next:2")
+def m_set_from_iter(I, st, inst, args):
+    alts = []
+    for s1, itv in _into_iter_value(I, st, inst, args[0], 2):
+        if isinstance(itv, PanicExc):
+            alts.append((s1, itv))
+            continue
+        if isinstance(itv, Opaque) and itv.kind == "Set":
+            itv = Opaque("VecIntoIter", (tuple(itv.data), 0))
+        for s2, items in drive_iter(I, s1, inst.aux.get("next2"), itv):
+            if isinstance(items, PanicExc):
+                alts.append((s2, items))
+                continue
+            cell = s2.alloc(Opaque("Set", ()))
+            for s3 in _set_add_all(I, s2, inst, Ptr(cell), items):
+                alts.append((s3, I.read(s3, Ptr(cell))))
     return Forks(alts)
 
 
